@@ -559,6 +559,14 @@ theorem conforming_call_full (c : Ctor) (s : Schema) (h : conformsTo c s = true)
   simp only [emitNode, h6]
   exact outputs_never_omitted s.minOutput s.outputs nvar
 
+/-- **emit_slots_closed_form.** `Node.to_onnx`'s popping loop, for every field list, every argument
+    assignment and every minimum, is the closed form the per-pair obligations `slots_<m>_<Op>` are
+    stated with: the positional list cut after its last present name, but never below
+    `min(min_input, length)`. -/
+theorem emit_slots_closed_form (minN : Nat) (args : List (Arg String)) :
+    emitSlots minN args = specSlots minN (flatten args) :=
+  emitSlots_closed minN args
+
 open Generated.Conforms in
 /-- every operator/module pair of this run, deviating ones included -/
 def everyPair : List Entry :=
